@@ -186,6 +186,53 @@ def grid_equal(res, tier):
             res.traces += 1
 
 
+def project_tasks(res):
+    """the project's own mapped task, with a failing contour at several positions: parallel runs must end exactly like the serial one —
+    same results bit for bit, or an exception of the same type (a SolutionError stays a SolutionError)"""
+    import json
+    import signal
+    import subprocess
+    import sys
+
+    p = subprocess.Popen([sys.executable, os.path.join(os.path.dirname(os.path.abspath(__file__)), "c13_project.py")], stdout=subprocess.PIPE,
+                         stderr=subprocess.STDOUT, text=True, start_new_session=True)
+    try:
+        out, _ = p.communicate(timeout=240)
+    except subprocess.TimeoutExpired:
+        os.killpg(p.pid, signal.SIGKILL)
+        out, _ = p.communicate()
+        res.violation("project-task-hang", "PsiContour.refine through ParallelMap blocks forever when a contour cannot be refined; output so far: %s" % out[-300:], {})
+        return
+    runs = [json.loads(ln[4:]) for ln in out.splitlines() if ln.startswith("RUN ")]
+    if "END" not in out or not runs:
+        res.broken("project-task child ended abnormally", out[-500:])
+        return
+    ref = {}
+    seq = {}
+    for k, rr in enumerate(runs):
+        seq.setdefault(rr["np"], []).append(rr)
+    for np_, lst in seq.items():
+        for pos, rr in enumerate(lst):
+            key = pos
+            res.case(key=("project", np_, rr["bad"], pos), nontrivial=True, sample={"task": "PsiContour.refine", "np": np_, "unreachable_contour": rr["bad"]})
+            o = rr["out"]
+            if np_ == 1:
+                ref[key] = o
+                continue
+            want = ref.get(key)
+            if want is None:
+                continue
+            same = o["kind"] == want["kind"] and (o["value"] == want["value"] if o["kind"] == "ok" else
+                                                  (o["type"] == want["type"] and o["is_solution_error"] == want["is_solution_error"]))
+            if not same:
+                res.violation("project-task-outcome:%s" % ("fail" if rr["bad"] is not None else "ok"),
+                              "PsiContour.refine over 4 contours (contour %s unreachable), np=%d: %s; serial: %s"
+                              % (rr["bad"], np_, {kk: (vv if kk != "value" else "…") for kk, vv in o.items()}, {kk: (vv if kk != "value" else "…") for kk, vv in want.items()}),
+                              {"np": np_, "unreachable_contour": rr["bad"], "call_index": pos})
+            else:
+                res.traces += 1
+
+
 def run(res, tier):
     r = vlib.rng("c13")
     res.rule = ("real ParallelMap (np in {1,2,3,5}) on tasks whose sleep times force chosen completion orders (all permutations for n<=4/5 "
@@ -195,6 +242,7 @@ def run(res, tier):
                 "distinct (np, n, arrival order, failing positions)")
     res.trusted += ["multiprocessing.Queue is FIFO and reliable; dill/pickle transport fidelity; the main thread's put phase is atomic in the model",
                     "OS scheduling is not modelled, only its observable effect (arrival order) — the theorems hold for every order"]
+    project_tasks(res)
     sc = scenarios(r, tier)
     results = run_child(sc, res)
     lines, idx = [], []
